@@ -1,4 +1,5 @@
 import Bmc.Proofs.C12
+import Bmc.Proofs.GenDec.CipherSuiteRecords
 #print axioms Bmc.Proofs.C12.choose_first_supported
 #print axioms Bmc.Proofs.C12.none_supported
 #print axioms Bmc.Proofs.C12.singleton_no_discovery
@@ -8,3 +9,5 @@ import Bmc.Proofs.C12
 #print axioms Bmc.Proofs.C12.discovery_then_choice
 #print axioms Bmc.Proofs.C12.first_advertised_preference
 #print axioms Bmc.Proofs.C12.discovery_failure_is_error
+#print axioms Bmc.Proofs.GenDec.parseCipherSuiteRecordData_gen_eq
+#print axioms Bmc.Proofs.GenDec.parseCipherSuiteRecordData_fuel
